@@ -1,7 +1,8 @@
-(* C13 (xfab.tools).  ubi_to_u_and_eps in tools omits the 2 pi of tools' own UBI convention: that part of the property is a
-   known finding (F7) decided against the implementation by the search harness; no theorem claims it here. *)
+(* C13 (xfab.tools).  ubi_to_u_and_eps in tools omits the 2 pi of tools' own UBI convention (known finding F7): the property's
+   statement "gives back U and strain" is false for tools; C13_tools_ubi_eps_actual says what is returned instead and
+   C13_tools_ubi_eps_refuted that it never is the strain put in.  The search harness replays the finding on the implementation. *)
 From Coq Require Import Reals.
-From XV Require Import RealLib Mat3 Cell Gen_tools P13_laue P13_tools.
+From XV Require Import RealLib Mat3 Cell Gen_tools P13_laue P13_tools P13_ubi P13_tools_old.
 Open Scope R_scope.
 
 Theorem C13_tools_eps_roundtrip : forall eps c, valid_cell c -> strain_ok eps -> tools_b_to_epsilon (tools_epsilon_to_b eps c) c = eps.
@@ -16,3 +17,18 @@ Print Assumptions C13_tools_zero_strain.
 Theorem C13_tools_strain_definition : forall B c, tools_b_to_epsilon B c = sym_minus_I (mmul (tools_form_b_mat c) (minv B)).
 Proof. exact tools_b_to_epsilon_def. Qed.
 Print Assumptions C13_tools_strain_definition.
+
+Theorem C13_tools_old_roundtrip : forall eps c, valid_cell c -> strain_small eps -> tools_b_to_epsilon_old (tools_epsilon_to_b_old eps c) c = eps.
+Proof. exact tools_eps_roundtrip_old. Qed.
+Print Assumptions C13_tools_old_roundtrip.
+Theorem C13_tools_old_zero_strain : forall c, valid_cell c -> tools_epsilon_to_b_old (mkV6 0 0 0 0 0 0) c = tools_form_b_mat c.
+Proof. exact tools_zero_strain_old. Qed.
+Print Assumptions C13_tools_old_zero_strain.
+
+Theorem C13_tools_ubi_eps_actual : forall U eps c, is_rot U -> valid_cell c -> strain_small eps ->
+  tools_ubi_to_u_and_eps (mscale (2 * PI) (minv (mmul U (tools_epsilon_to_b eps c)))) c = (U, eps_scaled (2 * PI) eps).
+Proof. exact tools_ubi_u_eps_actual. Qed.
+Print Assumptions C13_tools_ubi_eps_actual.
+Theorem C13_tools_ubi_eps_refuted : forall eps, strain_small eps -> eps_scaled (2 * PI) eps <> eps.
+Proof. exact eps_scaled_differs. Qed.
+Print Assumptions C13_tools_ubi_eps_refuted.
